@@ -487,3 +487,8 @@ Definition kilic_gtsub_unrepaired : method opn :=
      m_ret := RFresh [tm 11] |}.
 (* vartime Mul without the  G == P  test *)
 Definition vt_mul_notest : method opn := plain (vt_mul_inplace 3 3).
+
+(* a scalar multiplication that sets its output to the neutral element ("default result") before it
+   reads the point operand to build its table: wrong as soon as the receiver is that operand *)
+Definition mul_output_cleared_first : method opn :=
+  with_distinct [1%nat] (plain (const0 1 0 ++ let_all 10 1 GMul [1;1]%nat [a1 0; a2 0] ++ store_tmps 10 1)).
